@@ -6,16 +6,60 @@ sys.path.insert(0, os.path.join(VERIF, "harness"))
 import registry
 
 TECH = "bounded symbolic execution of the real code (Kani 0.68 -> CBMC 6.11 -> CaDiCaL), native replay of counterexamples"
+K = "Kani 0.68/CBMC 6.11/CaDiCaL over the code compiled from /repo's working tree; color-eyre shim; stubs and contracts as listed in the evidence file; "
 CLAIMS = {
+    "C01": dict(text="Inductive one-step argument decided by the solver: for every opcode, from every abstract stack of depth <= N (all 18 object kinds per slot, "
+                     "MARKs anywhere, symbolic memo size and flags) the real can_emit implies the pickletools.dis precondition (GUARD), the real process_stack_ops "
+                     "keeps the simulated stack in step with the reference machine (STEP), the emitters append exactly the opcode that was simulated (EMIT), and the "
+                     "real cleanup_for_stop collapses every stack of depth <= 8 with any MARK pattern to exactly one object using only legal opcodes (TAIL).",
+                note=K + "depth bounds N=3/6 (quick/thorough), tail depth 5/8; composition of the per-step lemmas is a paper induction; assumption A1 (payload-free guards) checked syntactically.",
+                ref="§4 GUARD/STEP/EMIT/TAIL, §5 C01"),
+    "C02": dict(text="PUT-family emitters executed symbolically for every memo size m <= 70000: the emitted index equals m (fresh); guards of PUT/GET families imply the "
+                     "reference memo preconditions (non-MARK top, non-empty memo); the stack effect of PUT/GET/MEMOIZE keeps the memo index set equal to the reference machine's.",
+                note=K + "memo modelled as a symbolic size with contiguous keys (the invariant shown by the PUT harnesses); GET index selection on a real multi-entry table is outside (HashMap internals are intractable for CBMC).",
+                ref="§4 MEMO-PUT/GUARD/STEP, §5 C02"),
+    "C03": dict(text="For every typed opcode and every kind vector of depth <= N the real can_emit implies the operand-kind rules of the property, evaluated by an independent "
+                     "reference machine (kinds from CPython's pickletools table); STEP shows the kinds pushed by every opcode stay compatible with the reference machine's.",
+                note=K + "N=3/6; kinds abstract the variant only (A1).", ref="§4 GUARD/STEP, §5 C03"),
+    "C04": dict(text="Every emitter is executed symbolically (all entropy up to the stated length, every protocol, flags, rates, memo sizes; unsafe TypeConfusion included) and the "
+                     "bytes it appends are decoded by an independent lexer derived from pickletools: exactly one complete in-domain lexeme. STRING/UNICODE escaping chains are "
+                     "translated from the source to a bit-vector query (all strings <= 6/8 bytes) decided by z3 and cvc5. Header/STOP layout from HEAD.",
+                note=K + "z3 5.1 + cvc5 for ESC; FLOAT text (Display for f64) and String-typed mutator paths on non-empty strings are outside; payloads <= 2 bytes in Kani.",
+                ref="§4 EMIT/ESC/POST/HEAD, §5 C04", tech="bounded symbolic execution (Kani/CBMC) + SMT encoding of the escaping chains (z3, cvc5), native replay"),
+    "C05": dict(text="Opcode tables checked against CPython's introducing-protocol column for every entry; every emission site (emitters, integer variant choice, collapse tail) "
+                     "shown to emit only opcodes of the protocol's vocabulary for symbolic P; PROTO header exactly for P >= 2 (HEAD); protocol-0 bytes < 0x80.",
+                note=K + "ESC for ASCII preservation of escaped strings; name table scanned as data.", ref="§4 TABLE/EMIT/TAIL/HEAD, §5 C05"),
+    "C06": dict(text="The real generate_internal (header, reservation, back-patching) is executed with contracts for its multi-step callees: for every protocol and entropy string the "
+                     "output is PROTO [+ FRAME with length = exactly the rest] + body + STOP; FRAME never a body choice (GUARD) and never produced by TypeConfusion (POST).",
+                note=K + "body/tail contracts append a fixed number (0..2) of arbitrary bytes per call, T <= 2.", ref="§4 HEAD/POST, §5 C06"),
+    "C08": dict(text="Two generation calls on one generator, with and without reset(), compared with a fresh generator for every protocol and input (<= 2 bytes); the used generator "
+                     "starts from an arbitrary dirty scratch state (symbolic) or a real earlier call (native replay).",
+                note=K + "callee contracts deterministic in this family; T <= 1.", ref="§4 HEAD(reuse), §5 C08"),
+    "C09": dict(text="Kani's panic, overflow, bounds, RefCell-borrow and unwinding checks are on in every harness of every family: each unit of the generator is shown panic-free and "
+                     "terminating inside its bounds, incl. opcode-range arithmetic for arbitrary max, aliased cells in the container-mutating arms, exhausted entropy.",
+                note=K + "recursion depth, allocation failure and anything past the stated bounds are outside.", ref="§5 C09"),
+    "C10": dict(text="can_emit(EXT*/buffer) implies the opt-in flag for every state and flag value (GUARD); no other emitter arm, the collapse tail or TypeConfusion produces one of "
+                     "the five opcodes (EMIT, TAIL, POST).",
+                note=K + "CLI flag forwarding (main.rs) is outside.", ref="§5 C10"),
+    "C11": dict(text="generate_internal executed with symbolic (min,max) incl. inverted/equal/zero and max up to usize::MAX: the number of body emissions T satisfies the stated "
+                     "relation; each emission appends exactly one lexeme (EMIT); the valid set is never empty (GUARD NONE); tail <= 2d+1 opcodes (TAIL).",
+                note=K + "min,max <= 2/4 symbolic plus an arithmetic-only instance for arbitrary max.", ref="§4 HEAD(count)/EMIT/TAIL, §5 C11"),
+    "C12": dict(text="Reduced to satisfiability: for every opcode the solver finds a state in which its guard is enabled (cover queries), and the tables are shown complete w.r.t. "
+                     "CPython for every protocol; both frame choices are covered in HEAD. Existence of a *seed* is outside (PRNG inversion).",
+                note=K + "reduced scope, see DESIGN.md §5 C12.", ref="§4 GUARD(cover)/TABLE, §5 C12"),
+    "C15": dict(text="Each mutator gate site is executed symbolically at rate 0.0 and 1.0 on both entropy sources for every argument value and every entropy state "
+                     "(fuzzer strings 0..16 bytes incl. exhausted; all PRNG word streams); TypeConfusion at symbolic rate via POST.",
+                note=K + "String-typed sites only with the empty string; PRNG as arbitrary word stream.", ref="§4 MUT, §5 C15"),
+    "C16": dict(text="Every mutator method is executed symbolically for all i32/i64/usize/f64 values, byte strings of length 0..3, every rate in [0,1] and every entropy state; "
+                     "the result is asserted to lie in the documented contract. TypeConfusion's rewrite is lexed by the reference lexer.",
+                note=K + "String-typed methods only on the empty string (symbolic chars exhaust CBMC memory); byte strings of 4..64 items outside.", ref="§4 MUT/POST, §5 C16"),
+    "C17": dict(text="Per-opcode simulation relation: after the real process_stack_ops from every abstract state in which the opcode can be chosen, depth, MARK positions, slot kinds and "
+                     "memo index set equal the reference machine's step; EMIT shows the simulation is invoked with exactly the bytes appended.",
+                note=K + "depth <= 3/5; GLOBAL/INST arms on one concrete two-name argument (thorough).", ref="§4 STEP/EMIT, §5 C17"),
     "C18": dict(text="Every entropy-adapter method of GenerationSource is executed symbolically on both branches: all fuzzer byte strings of "
-                     "length 0..16 with all usize arguments, and all PRNG word streams (range width <= 1024 in quick); the solver shows range, "
+                     "length 0..16 with all usize arguments, and all PRNG word streams (range width <= 1024); the solver shows range, "
                      "fallback and length postconditions and panic-freedom for every such input.",
-                note="Kani/CBMC/CaDiCaL; color-eyre shim; ChaCha8 core modelled as an arbitrary word stream; PRNG ranges wider than the stated bound are outside.",
-                ref="§4 ENT, §5 C18"),
-    "C15": dict(text="Each of the mutator gate sites is executed symbolically at rate 0.0 and 1.0 on both entropy sources for every argument value "
-                     "and every entropy state (fuzzer strings 0..16 bytes incl. exhausted; all PRNG word streams).",
-                note="Kani/CBMC/CaDiCaL; String-typed sites only with the empty string; PRNG as arbitrary word stream.",
-                ref="§4 MUT, §5 C15"),
+                note=K + "PRNG ranges wider than the stated bound are outside.", ref="§4 ENT, §5 C18"),
 }
 NA = {
     "C13": "front ends are main() over clap/rayon/filesystem, a bash script and a pyo3 extension: none can be executed by Kani/CBMC or encoded for an SMT solver within reach, and no pure fragment carries the property (DESIGN.md §5 C13)",
@@ -56,6 +100,8 @@ def main():
         "engines": [
             {"name": "kani-overlay", "path": "/verif/check", "serves_properties": [c["property_id"] for c in checks],
              "kind_free_text": "Kani 0.68 / CBMC 6.11 bounded model checking of the crate's own functions, harnesses in /verif/harness/kani grafted into a scratch copy of /repo"},
+            {"name": "esc-smt", "path": "/verif/lib/esc.py", "serves_properties": ["C04", "C05"],
+             "kind_free_text": "source-to-SMT translation of the STRING/UNICODE escaping chains, decided by z3 5.1 and cvc5, validated against the compiled code"},
         ],
         "checks": checks,
         "not_applicable": na,
